@@ -72,74 +72,127 @@ Definition base_pic_cn (e : list (lbc * obs)) : bool := match e with (_, o) :: _
 
 Definition jamo5 := [LB_JL; LB_JV; LB_JT; LB_H2; LB_H3].
 
+(* numeric context of Example 7 directly to the left *)
+Inductive numctx := NumNone | NumOpen | NumClosed.   (* -, NU (NU|SY|IS)*, NU (NU|SY|IS)* (CL|CP) *)
+Definition numctx_of (e : list (lbc * obs)) : numctx :=
+  if num_prefix e then NumOpen
+  else match e with
+       | (c, _) :: r => if cin c [LB_CL; LB_CP] && num_prefix r then NumClosed else NumNone
+       | [] => NumNone
+       end.
+
+(* the finite context the rules read at one position *)
+Record lctx := mkCtx {
+  x_a0 : lbc;            (* class (after LB1) of the rune immediately before the position *)
+  x_b0 : lbc;            (* class (after LB1) of the rune after the position *)
+  x_zwsp : bool;         (* the text before ends with  ZW SP*  *)
+  x_p : lbc;             (* class before the position after LB9 / LB10 *)
+  x_s : option lbc;      (* class before the spaces:  x_s SP*  ends the LB9/LB10 string *)
+  x_pp_hl : bool;        (* the class before x_p is HL *)
+  x_base_wide : bool;    (* the rune carrying x_p has East-Asian width F, W or H *)
+  x_base_piccn : bool;   (* the rune carrying x_p is Extended_Pictographic and unassigned *)
+  x_b_wide : bool;       (* the rune after the position has East-Asian width F, W or H *)
+  x_ri_odd : bool;       (* an odd number of RI directly before *)
+  x_num : numctx;
+  x_nx_nu : bool         (* the class following the rune after the position, past its combining marks, is NU *)
+}.
+
+Definition lb_core (x : lctx) : lbr :=
+  let a0 := x_a0 x in
+  let b0 := x_b0 x in
+  if lbc_beq a0 LB_BK then Mandatory                                  (* LB4  BK ! *)
+  else if lbc_beq a0 LB_CR && lbc_beq b0 LB_LF then Prohibited        (* LB5  CR × LF *)
+  else if cin a0 [LB_CR; LB_LF; LB_NL] then Mandatory                 (* LB5  CR ! LF ! NL ! *)
+  else if cin b0 [LB_BK; LB_CR; LB_LF; LB_NL] then Prohibited         (* LB6 *)
+  else if cin b0 [LB_SP; LB_ZW] then Prohibited                       (* LB7 *)
+  else if x_zwsp x then Allowed                                       (* LB8  ZW SP* ÷ *)
+  else if lbc_beq a0 LB_ZWJ then Prohibited                           (* LB8a ZWJ × *)
+  else if is_mark b0 && negb (hard_or_space (x_p x)) then Prohibited  (* LB9  × attached CM / ZWJ *)
+  else
+    let b1 := if is_mark b0 then LB_AL else b0 in                      (* LB10 *)
+    let p l := cin (x_p x) l in
+    let c l := cin b1 l in
+    let s l := match x_s x with Some k => cin k l | None => false end in
+    let numopen := match x_num x with NumOpen => true | _ => false end in
+    let numany := match x_num x with NumNone => false | _ => true end in
+    if p [LB_WJ] || c [LB_WJ] then Prohibited                        (* LB11 *)
+    else if p [LB_GL] then Prohibited                                (* LB12 GL × *)
+    else if negb (p [LB_SP; LB_BA; LB_HY]) && c [LB_GL] then Prohibited   (* LB12a *)
+    else if c [LB_EX] then Prohibited                                (* LB13 × EX (tailored) *)
+    else if negb (p [LB_NU]) && c [LB_CL; LB_CP; LB_IS; LB_SY] then Prohibited   (* LB13 [^NU] × (CL|CP|IS|SY) *)
+    else if s [LB_OP] then Prohibited                                (* LB14 OP SP* × *)
+    else if s [LB_QU] && c [LB_OP] then Prohibited                   (* LB15 QU SP* × OP *)
+    else if s [LB_CL; LB_CP] && c [LB_NS] then Prohibited            (* LB16 *)
+    else if s [LB_B2] && c [LB_B2] then Prohibited                   (* LB17 *)
+    else if p [LB_SP] then Allowed                                   (* LB18 SP ÷ *)
+    else if p [LB_QU] || c [LB_QU] then Prohibited                   (* LB19 *)
+    else if p [LB_CB] || c [LB_CB] then Allowed                      (* LB20 *)
+    else if c [LB_BA; LB_HY; LB_NS] || p [LB_BB] then Prohibited     (* LB21 *)
+    else if p [LB_HY; LB_BA] && x_pp_hl x then Prohibited            (* LB21a HL (HY|BA) × *)
+    else if p [LB_SY] && c [LB_HL] then Prohibited                   (* LB21b *)
+    else if c [LB_IN] then Prohibited                                (* LB22 *)
+    else if p [LB_AL; LB_HL] && c [LB_NU] then Prohibited            (* LB23 *)
+    else if p [LB_NU] && c [LB_AL; LB_HL] then Prohibited
+    else if p [LB_PR] && c [LB_ID; LB_EB; LB_EM] then Prohibited     (* LB23a *)
+    else if p [LB_ID; LB_EB; LB_EM] && c [LB_PO] then Prohibited
+    else if p [LB_PR; LB_PO] && c [LB_AL; LB_HL] then Prohibited     (* LB24 *)
+    else if p [LB_AL; LB_HL] && c [LB_PR; LB_PO] then Prohibited
+    (* LB25, Example 7:  (PR|PO) × (OP|HY)? NU ; (OP|HY) × NU ; NU × (NU|SY|IS) ;
+                         NU (NU|SY|IS)* × (NU|SY|IS|CL|CP) ; NU (NU|SY|IS)* (CL|CP)? × (PO|PR) *)
+    else if p [LB_PR; LB_PO] && c [LB_NU] then Prohibited
+    else if p [LB_PR; LB_PO] && c [LB_OP; LB_HY] && x_nx_nu x then Prohibited
+    else if p [LB_OP; LB_HY] && c [LB_NU] then Prohibited
+    else if p [LB_NU] && c [LB_NU; LB_SY; LB_IS] then Prohibited
+    else if numopen && c [LB_NU; LB_SY; LB_IS; LB_CL; LB_CP] then Prohibited
+    else if numany && c [LB_PO; LB_PR] then Prohibited
+    else if p [LB_JL] && c [LB_JL; LB_JV; LB_H2; LB_H3] then Prohibited   (* LB26 *)
+    else if p [LB_JV; LB_H2] && c [LB_JV; LB_JT] then Prohibited
+    else if p [LB_JT; LB_H3] && c [LB_JT] then Prohibited
+    else if p jamo5 && c [LB_PO] then Prohibited                     (* LB27 *)
+    else if p [LB_PR] && c jamo5 then Prohibited
+    else if p [LB_AL; LB_HL] && c [LB_AL; LB_HL] then Prohibited     (* LB28 *)
+    else if p [LB_IS] && c [LB_AL; LB_HL] then Prohibited            (* LB29 *)
+    else if p [LB_AL; LB_HL; LB_NU] && c [LB_OP] && negb (x_b_wide x) then Prohibited   (* LB30 *)
+    else if p [LB_CP] && negb (x_base_wide x) && c [LB_AL; LB_HL; LB_NU] then Prohibited
+    else if c [LB_RI] && x_ri_odd x then Prohibited                  (* LB30a *)
+    else if p [LB_EB] && c [LB_EM] then Prohibited                   (* LB30b *)
+    else if x_base_piccn x && c [LB_EM] then Prohibited
+    else Allowed.                                                    (* LB31 *)
+
+(* reading the context off the text around a position (a :: left' reversed before, b :: right' after) *)
+Definition ctx_of (a : obs) (left' : list obs) (b : obs) (right' : list obs) : lctx :=
+  let left := a :: left' in
+  let e := eff left in
+  mkCtx (lb1 a) (lb1 b)
+        (match skip_sp_raw left with o :: _ => lbc_beq (lb1 o) LB_ZW | [] => false end)
+        (match e with (k, _) :: _ => k | [] => LB_AL end)
+        (ecls (skip_sp e))
+        (eis (tl e) [LB_HL])
+        (base_wide e) (base_pic_cn e) (o_wide b)
+        (Nat.odd (leading_ri e))
+        (numctx_of e)
+        (negb (is_mark (lb1 b)) && match skip_marks right' with o :: _ => lbc_beq (lb1 o) LB_NU | [] => false end).
+
 Definition lb_decision (left right : list obs) : lbr :=
   match left, right with
-  | _, [] => Mandatory                                                    (* LB3  ! eot (also for the empty text) *)
-  | [], _ => Prohibited                                                   (* LB2  sot × *)
-  | a :: _, b :: right' =>
-      let a0 := lb1 a in            (* raw classes around the position *)
-      let b0 := lb1 b in
-      if lbc_beq a0 LB_BK then Mandatory                                  (* LB4  BK ! *)
-      else if lbc_beq a0 LB_CR && lbc_beq b0 LB_LF then Prohibited        (* LB5  CR × LF *)
-      else if cin a0 [LB_CR; LB_LF; LB_NL] then Mandatory                 (* LB5  CR ! LF ! NL ! *)
-      else if cin b0 [LB_BK; LB_CR; LB_LF; LB_NL] then Prohibited         (* LB6 *)
-      else if cin b0 [LB_SP; LB_ZW] then Prohibited                       (* LB7 *)
-      else if match skip_sp_raw left with o :: _ => lbc_beq (lb1 o) LB_ZW | [] => false end then Allowed   (* LB8 ZW SP* ÷ *)
-      else if lbc_beq a0 LB_ZWJ then Prohibited                           (* LB8a ZWJ × *)
-      else
-        let e := eff left in                                              (* LB9/LB10 applied to the left *)
-        if is_mark b0 && negb (eis e [LB_BK; LB_CR; LB_LF; LB_NL; LB_SP; LB_ZW]) then Prohibited   (* LB9 × attached mark *)
-        else
-          let b1 := if is_mark b0 then LB_AL else b0 in                    (* LB10 *)
-          let n := match skip_marks right' with o :: _ => Some (lb1 o) | [] => None end in
-          let nx := if is_mark b0 then None else n in                     (* class following b after its marks *)
-          let p l := eis e l in
-          let c l := cin b1 l in
-          let s := skip_sp e in
-          if p [LB_WJ] || c [LB_WJ] then Prohibited                        (* LB11 *)
-          else if p [LB_GL] then Prohibited                                (* LB12 GL × *)
-          else if negb (p [LB_SP; LB_BA; LB_HY]) && c [LB_GL] then Prohibited   (* LB12a *)
-          else if c [LB_EX] then Prohibited                                (* LB13 × EX (tailored) *)
-          else if negb (p [LB_NU]) && c [LB_CL; LB_CP; LB_IS; LB_SY] then Prohibited   (* LB13 [^NU] × (CL|CP|IS|SY) *)
-          else if eis s [LB_OP] then Prohibited                            (* LB14 OP SP* × *)
-          else if eis s [LB_QU] && c [LB_OP] then Prohibited               (* LB15 QU SP* × OP *)
-          else if eis s [LB_CL; LB_CP] && c [LB_NS] then Prohibited        (* LB16 *)
-          else if eis s [LB_B2] && c [LB_B2] then Prohibited               (* LB17 *)
-          else if p [LB_SP] then Allowed                                   (* LB18 SP ÷ *)
-          else if p [LB_QU] || c [LB_QU] then Prohibited                   (* LB19 *)
-          else if p [LB_CB] || c [LB_CB] then Allowed                      (* LB20 *)
-          else if c [LB_BA; LB_HY; LB_NS] || p [LB_BB] then Prohibited     (* LB21 *)
-          else if p [LB_HY; LB_BA] && eis (tl e) [LB_HL] then Prohibited   (* LB21a HL (HY|BA) × *)
-          else if p [LB_SY] && c [LB_HL] then Prohibited                   (* LB21b *)
-          else if c [LB_IN] then Prohibited                                (* LB22 *)
-          else if p [LB_AL; LB_HL] && c [LB_NU] then Prohibited            (* LB23 *)
-          else if p [LB_NU] && c [LB_AL; LB_HL] then Prohibited
-          else if p [LB_PR] && c [LB_ID; LB_EB; LB_EM] then Prohibited     (* LB23a *)
-          else if p [LB_ID; LB_EB; LB_EM] && c [LB_PO] then Prohibited
-          else if p [LB_PR; LB_PO] && c [LB_AL; LB_HL] then Prohibited     (* LB24 *)
-          else if p [LB_AL; LB_HL] && c [LB_PR; LB_PO] then Prohibited
-          (* LB25, Example 7:  (PR|PO) × (OP|HY)? NU ; (OP|HY) × NU ; NU × (NU|SY|IS) ;
-                               NU (NU|SY|IS)* × (NU|SY|IS|CL|CP) ; NU (NU|SY|IS)* (CL|CP)? × (PO|PR) *)
-          else if p [LB_PR; LB_PO] && c [LB_NU] then Prohibited
-          else if p [LB_PR; LB_PO] && c [LB_OP; LB_HY] && match nx with Some k => lbc_beq k LB_NU | None => false end then Prohibited
-          else if p [LB_OP; LB_HY] && c [LB_NU] then Prohibited
-          else if p [LB_NU] && c [LB_NU; LB_SY; LB_IS] then Prohibited
-          else if num_prefix e && c [LB_NU; LB_SY; LB_IS; LB_CL; LB_CP] then Prohibited
-          else if num_prefix_close e && c [LB_PO; LB_PR] then Prohibited
-          else if p [LB_JL] && c [LB_JL; LB_JV; LB_H2; LB_H3] then Prohibited   (* LB26 *)
-          else if p [LB_JV; LB_H2] && c [LB_JV; LB_JT] then Prohibited
-          else if p [LB_JT; LB_H3] && c [LB_JT] then Prohibited
-          else if p jamo5 && c [LB_PO] then Prohibited                     (* LB27 *)
-          else if p [LB_PR] && c jamo5 then Prohibited
-          else if p [LB_AL; LB_HL] && c [LB_AL; LB_HL] then Prohibited     (* LB28 *)
-          else if p [LB_IS] && c [LB_AL; LB_HL] then Prohibited            (* LB29 *)
-          else if p [LB_AL; LB_HL; LB_NU] && c [LB_OP] && negb (is_mark b0) && negb (o_wide b) then Prohibited   (* LB30 *)
-          else if p [LB_CP] && negb (base_wide e) && c [LB_AL; LB_HL; LB_NU] then Prohibited
-          else if c [LB_RI] && Nat.odd (leading_ri e) then Prohibited      (* LB30a *)
-          else if p [LB_EB] && c [LB_EM] then Prohibited                   (* LB30b *)
-          else if base_pic_cn e && c [LB_EM] then Prohibited
-          else Allowed                                                     (* LB31 *)
+  | _, [] => Mandatory                                                (* LB3  ! eot (also for the empty text) *)
+  | [], _ => Prohibited                                               (* LB2  sot × *)
+  | a :: left', b :: right' => lb_core (ctx_of a left' b right')
   end.
+
+(* The one place where the library knowingly deviates (finding F3): LB25 "(PR|PO) × (OP|HY) NU" when combining
+   marks sit between the (OP|HY) and the digit.  Positions matching this predicate are excluded from the
+   equivalence theorem. *)
+Definition f3_position (left right : list obs) : bool :=
+  match right with
+  | b :: ((m :: _) as right') =>
+      eis (eff left) [LB_PR; LB_PO] && cin (lb1 b) [LB_OP; LB_HY] && is_mark (lb1 m)
+      && match skip_marks right' with o :: _ => lbc_beq (lb1 o) LB_NU | [] => false end
+  | _ => false
+  end.
+Fixpoint f3_free_from (left right : list obs) : bool :=
+  negb (f3_position left right) && match right with [] => true | o :: r => f3_free_from (o :: left) r end.
+Definition f3_free (text : list obs) : bool := f3_free_from [] text.
 
 Fixpoint lb_positions (left right : list obs) : list lbr :=
   lb_decision left right :: match right with
